@@ -39,11 +39,11 @@ class Lane:
         return vlib.Ctx.tlc(self, *a, **kw)
 
 
-def mc_cfg(ctls, ops, handles, withset=False, emit=False, check=True, **sw):
+def mc_cfg(ops, handles, withset=False, emit=False, check=True, **sw):
     s = SW
     for k, v in sw.items():
         s = s.replace("%s = TRUE" % k, "%s = %s" % (k, v))
-    s += "  Ctls = {%s}\n  Names = {\"x\", \"y\"}\n  RNames = {\"r\"}\n  PidSet = {\"p1\", \"p2\"}\n" % ", ".join('"%s"' % c for c in ctls)
+    s += "  CtlSets = {{\"cpu\", \"memory\"}, {\"u\"}}\n  Names = {\"x\", \"y\"}\n  RNames = {\"r\"}\n  PidSet = {\"p1\", \"p2\"}\n"
     s += "  MaxOps = %d\n  MaxDepth = 2\n  MaxHandles = %d\n  WithSet = %s\n  Emit = %s\nSPECIFICATION Spec\n" % (
         ops, handles, "TRUE" if withset else "FALSE", "TRUE" if emit else "FALSE")
     if check:
@@ -57,23 +57,22 @@ RACE_CFG = "CONSTANTS G = 3\n  K = 2\n  Names = {\"x\", \"y\"}\n  AtomicMkdir = 
 def mc(ctx0, errs):
     try:
         ctx = Lane(ctx0, 100)
-        st = tr = 0
-        for ctls in (("cpu", "memory"), ("u",)):
-            r = ctx.tlc("Cgroup_MC", cfg=mc_cfg(ctls, ctx0.pick(6, 7), 5), workers=4, timeout=900)
-            ctx0.tlc_ok("Cgroup_MC %s" % (ctls,), r)
-            st, tr = st + r.distinct, tr + r.generated
+        r = ctx.tlc("Cgroup_MC", cfg=mc_cfg(ctx0.pick(6, 7), 5), workers=4, timeout=900)
+        ctx0.tlc_ok("Cgroup_MC", r)
+        st, tr = r.distinct, r.generated
         r = ctx.tlc("Cgroup_Race", cfg=RACE_CFG % "TRUE", workers=2, timeout=600)
         ctx0.tlc_ok("Cgroup_Race", r)
         st, tr = st + r.distinct, tr + r.generated
         ctx0.cov["mc_states"], ctx0.cov["mc_transitions"] = st, tr
-        # sanity of the models: each defective design must be caught
-        for sw in ("ControlsExisting", "RandomFresh", "OpenReturns"):
-            b = ctx.tlc("Cgroup_MC", cfg=mc_cfg(("cpu", "memory"), 5, 4, **{sw: "FALSE"}), workers=2, timeout=600)
-            if b.invariant != "ImplRefines":
-                raise vlib.Inconclusive("model sanity: %s = FALSE should violate ImplRefines:\n%s" % (sw, b.tail(20)))
-        b = ctx.tlc("Cgroup_Race", cfg=RACE_CFG % "FALSE", workers=2, timeout=600)
-        if b.invariant not in ("OneOwner", "OneCreator", "OwnerKeeps"):
-            raise vlib.Inconclusive("model sanity: AtomicMkdir = FALSE should violate OneOwner:\n%s" % b.tail(20))
+        # sanity of the models (thorough): each defective design must be caught
+        if not ctx0.quick():
+            for sw in ("ControlsExisting", "RandomFresh", "OpenReturns"):
+                b = ctx.tlc("Cgroup_MC", cfg=mc_cfg(5, 4, **{sw: "FALSE"}), workers=2, timeout=600)
+                if b.invariant != "ImplRefines":
+                    raise vlib.Inconclusive("model sanity: %s = FALSE should violate ImplRefines:\n%s" % (sw, b.tail(20)))
+            b = ctx.tlc("Cgroup_Race", cfg=RACE_CFG % "FALSE", workers=2, timeout=600)
+            if b.invariant not in ("OneOwner", "OneCreator", "OwnerKeeps"):
+                raise vlib.Inconclusive("model sanity: AtomicMkdir = FALSE should violate OneOwner:\n%s" % b.tail(20))
         ctx0.cov["model_detects"] = ["stat-then-MkdirAll -> two owners of one directory (Cgroup_Race)",
                                      "v1 handle of an existing group acts on nothing -> AddProc moves nobody",
                                      "Random returns an existing group", "OpenExisting(v1) returns no handle"]
@@ -81,10 +80,10 @@ def mc(ctx0, errs):
         errs.append(e)
 
 
-def histories(ctx, lane, ctls, num, out):
-    """behaviours of Cgroup_MC produced by TLC's simulator, seeded"""
+def histories(ctx, lane, num, out):
+    """behaviours of Cgroup_MC produced by TLC's simulator, seeded; the first call names the hierarchies"""
     try:
-        r = lane.tlc("Cgroup_MC", cfg=mc_cfg(ctls, 6, 5, withset=len(ctls) > 1, emit=True, check=False), workers=1,
+        r = lane.tlc("Cgroup_MC", cfg=mc_cfg(6, 5, withset=True, emit=True, check=False), workers=1,
                      timeout=900, simulate="num=%d" % num, depth=8, extra=["-seed", str(1000 + ctx.seed)])
         seen, res = set(), []
         for m in re.finditer(r'<<"HIST", "(.*)">>', r.out):
@@ -94,7 +93,7 @@ def histories(ctx, lane, ctls, num, out):
                 res.append(json.loads(s))
         if not res:
             raise vlib.Inconclusive("no histories generated:\n" + r.tail(30))
-        out[ctls] = res
+        out["h"] = res
     except Exception as e:  # noqa
         out["err"] = e
 
@@ -133,28 +132,26 @@ def run1(ctx, nonce):
 
     def gen_cases():
         try:
-            g = Lane(ctx, 300).tlc("Cgroup_Gen", timeout=600)
+            g = Lane(ctx, 300).tlc("Cgroup_Gen", cfg="CONSTANT WithRace3 = %s\nINIT Init\nNEXT Next\n" % ctx.pick("FALSE", "TRUE"), timeout=600)
             ctx.tlc_ok("Cgroup_Gen", g)
             for n in ("race2", "race3", "units", "fix"):
                 gen[n] = ctx.read_ndjson(os.path.join(g.dir, n + ".ndjson"))
         except Exception as e:  # noqa
             gen["err"] = e
-    V1, V2 = ("cpu", "memory"), ("u",)
-    parallel([(histories, (ctx, Lane(ctx, 400), V1, ctx.pick(260, 1300), hist)),
-              (histories, (ctx, Lane(ctx, 500), V2, ctx.pick(140, 650), hist)),
-              (gen_cases, ())])
+    parallel([(histories, (ctx, Lane(ctx, 400), ctx.pick(300, 1900), hist)), (gen_cases, ())])
     raise_first([x for x in (hist.get("err"), gen.get("err")) if x])
     # ---- the cases of this run
     hcases = []
-    for ctls, ver in ((V1, 1), (V2, 2)):
-        for h in hist[ctls]:
-            hcases.append({"ver": ver, "ctls": list(ctls), "ops": h})
+    for h in hist["h"]:
+        ctls = sorted(h[0]["names"])
+        h[0]["names"] = []
+        hcases.append({"ver": 2 if ctls == ["u"] else 1, "ctls": ctls, "ops": h})
     race = list(gen["race2"])
     r3 = list(gen["race3"])
     ctx.rng.shuffle(r3)
     if ctx.quick():
         ctx.rng.shuffle(race)
-        race = race[:300] + r3[:80]
+        race = race[:360]
     else:
         race = race + r3[:1800]
     units = sorted(gen["units"], key=lambda u: (u["ver"], u["ms"], u["mib"]))
